@@ -148,10 +148,13 @@ def run(ck, P):
     ck.ob("C03.2-REASONS", le.site("loop condition"), okl, "loop continues while %s" % conds)
     ls = P.fn("loop_stop", CTXC)
     ck.analysed(ls)
-    rd = [e for e in ls.events() if e.kind == "decl" and e.rhs is not None and S(e.rhs) == "c->quit_code"]
+    rd = [e for e in ls.events() if e.kind in ("decl", "assign") and e.rhs is not None and S(e.rhs) == "c->quit_code" and e.lhs is not None
+          and strip(e.lhs)["k"] == "var"]
     dr = list(ls.calls("m_ctx_deregister"))
     rets = [e for e in ls.events() if e.kind == "ret"]
-    okr = len(rd) == 1 and all(ls.ev_dominates(rd[0], d) for d in dr) and all(S(r.e) == rd[0].e["name"] for r in rets) and bool(rets)
+    # (a return that cannot follow the release may also read the field itself)
+    okr = len(rd) == 1 and all(ls.ev_dominates(rd[0], d) for d in dr) and bool(rets) and \
+        all(S(r.e) == S(rd[0].lhs) or (S(r.e) == "c->quit_code" and not any(rules.may_precede(ls, d, r) for d in dr)) for r in rets)
     ck.ob("C03.2-REASONS", ls.site("returns quit code"), okr, "quit code read at line %s before the automatic release, returned unchanged: %s" % ([e.line for e in rd], okr))
 
     # ------------------------------------------------------------------ 3. owner and user data: producers agree
